@@ -69,7 +69,7 @@ class ApplyHistory(Machine):
                        "out_of_domain_mix", "apply_on_copy", "integer_dtype_buffer", "non_contiguous_view_input", "pseudoinverse_of_used_transform",
                        "parameters_updated_in_place_between_applies", "earlier_result_still_valid", "caller_edited_an_earlier_result_in_place", "current_target_edited_in_place_and_set_again", "derived_non_alignment_changed_in_place", "identity_valued_transform",
                        "source_mesh_with_overlapping_triangles", "target_point_set_overwritten_after_set_target",
-                       "pseudoinverse_vector_asked_between_applies", "pseudoinverse_vector_of_singular_parameters_raised",
+                       "pseudoinverse_vector_asked_between_applies", "earlier_inverse_retargeted_by_the_caller", "parameter_vector_overwritten_after_update", "pseudoinverse_vector_of_singular_parameters_raised",
                        "composition_result_discarded_between_applies")
 
     @classmethod
@@ -394,10 +394,17 @@ class ApplyHistory(Machine):
             import warnings as _w
             with _w.catch_warnings():
                 _w.simplefilter("ignore")
-                e["t"].from_vector_inplace(v)
+                if op["seed"] & 64:
+                    e["t"] = e["t"].from_vector(v)     # the rebuilt transform replaces the old one in the caller's hands
+                else:
+                    e["t"].from_vector_inplace(v)
         except Exception:
             return
         e["vec"] = v.tolist()
+        if op["seed"] & 128 and isinstance(v, np.ndarray) and v.ndim >= 1:
+            # the caller reuses its parameter buffer for something else: the transform keeps the parameters it was given
+            v[:] = -7.5
+            self.ctx.probe("parameter_vector_overwritten_after_update")
         self.ctx.probe("parameters_updated_in_place_between_applies")
 
     def _op_pinv(self, op):
@@ -411,6 +418,12 @@ class ApplyHistory(Machine):
         if e.get("target_scribbled"):
             return   # (the inverse is built from the target object, whose coordinates the caller has overwritten since)
         try:
+            if op["dst"] % 3 == 1 and e["kind"] in RETARGETABLE:
+                # an inverse the caller obtained earlier and re-targeted for its own purposes is the caller's own
+                # object: the transform, and the inverses it hands out later, know nothing of it
+                inv0 = e["t"].pseudoinverse()
+                inv0.set_target(PointCloud(np.asarray(inv0.target.points) * 0.9 + 0.3))
+                self.ctx.probe("earlier_inverse_retargeted_by_the_caller")
             inv = e["t"].pseudoinverse()
         except Exception:
             return   # C04's business
